@@ -403,6 +403,42 @@ def check_dynamic(prog, av, r):
             r.ok("peers.remove only under delete_on_disconnected and no_sessions")
         else:
             r.fail(prog.name(rk), "dynamic-remove-guard", "the peer entry is removed without %s" % ("delete_on_disconnected" if not d else "checking that no session is left"), rv_.loc(b))
+    # "no session left" (the value that lets run() reset / delete the neighbour) means: neither direction has a connection
+    ak = prog.one(r"rustybgpd::event::apply_disconnect")
+    afv = view(prog, prog.body_key(ak))
+    r.analysed(prog.name(ak))
+    rend = Renderer(afv, depth=8)
+    ways = []          # each: list of (expr, labels) necessary for returning true that way
+    for bi, si, s in afv.aggregates(re.compile(r".*Poll"), "Ready"):
+        op = s["rv"]["fields"][0]
+        l = (op.get("m") or op.get("c") or {}).get("l")
+        if l is None:
+            if op.get("k", {}).get("v") == 1:
+                ways.append([(g, l2) for g, l2, h in flat_guards(afv, bi)])
+            continue
+        for b2, s2, st in afv.defs().get(l, []):
+            if b2 not in afv.live:
+                continue
+            gs = [(g, l2) for g, l2, h in flat_guards(afv, b2)]
+            if s2 == "t":
+                gs.append((rend.call_expr(st, 8, b2), {"true"}))
+            elif st["rv"].get("r") == "use" and "k" in st["rv"]["o"]:
+                if not st["rv"]["o"]["k"].get("v"):
+                    continue
+            else:
+                gs.append((rend.rvalue(st["rv"], 8), {"true"}))
+            ways.append(gs)
+    if not ways:
+        r.unanalysable("apply_disconnect: no way of returning true found", afv.loc())
+    for gs in ways:
+        none_of = lambda f: any(g[0] == "call" and re.search(r"Option::(<T>::)?is_none$", g[1]) and f in expr_fields(g) and l2 == {"true"} for g, l2 in gs) \
+            or any(g[0] == "discr" and f in expr_fields(g) and l2 == {"None"} for g, l2 in gs)
+        miss = [f for f in ("active_close_tx", "passive_close_tx") if not none_of(f)]
+        if miss:
+            r.fail(prog.name(ak), "no-sessions-ignores:" + ",".join(miss), "apply_disconnect reports 'no session left' without %s being empty: the end of one connection resets (or deletes) a neighbour whose "
+                   "other connection is alive, and a second connection in that direction is then admitted" % " / ".join(miss), afv.loc())
+        else:
+            r.ok("apply_disconnect: 'no session left' requires both close-channel slots to be None")
     # delete_on_disconnected: true only in accept_connection
     n = 0
     for k in crate_fns(prog, "rustybgpd"):
